@@ -200,7 +200,7 @@ func remainderKept(fn *ssa.Function, d delivery, self map[ssa.Value]bool, field 
 			return
 		}
 		sl, ok := st.Val.(*ssa.Slice)
-		if !ok || sl.Low != d.val || sl.High != nil {
+		if !ok || sl.High != nil || !h3SameCount(sl.Low, d.val) {
 			return
 		}
 		if !(d.srcV != nil && sl.X == d.srcV) && pathOf(sl.X) != d.src {
